@@ -4,4 +4,6 @@ import AJ.Model.Surgery
 import AJ.Model.Build
 import AJ.Model.Dot
 import AJ.Spec
+import AJ.Model.Run
+import AJ.Model.Full
 import AJ.Props
